@@ -10,6 +10,7 @@ CONSTANTS
   PublishAfterUnlock = FALSE
   CreatedRevalidated = TRUE
   DeleteHoldsLock = TRUE
+  DeleteRechecks = TRUE
   Equiv = "coll-keep"
   SubSer = FALSE
   MayCancel = FALSE
